@@ -21,6 +21,14 @@ Proof.
   - intros Hp. apply (p_file _ _ P Hp).
 Qed.
 
+Lemma restoring_ok : forall c s hi, (if running s then VInv c s hi else RInv s) ->
+  forall i, restoring s = Some i -> i = newest (segs s) /\ 0 < i.
+Proof.
+  intros c s hi HV i Hi. destruct (running s).
+  - destruct HV. destruct v_pgwal as [_ Pr]. congruence.
+  - destruct HV as [_ [_ [_ [_ [_ [_ [_ [_ [_ [Hrs _]]]]]]]]]]. apply Hrs. exact Hi.
+Qed.
+
 (* ---------- process death ---------- *)
 
 Lemma step_crash : forall c s s' j extra, Inv c s -> step c s (EvCrash j extra) = Ok s' -> Inv c s'.
@@ -32,7 +40,9 @@ Proof.
     destruct (Nat.leb j (unflushed s)) eqn:Lj; [|discriminate]. injection Im as <-. apply Nat.leb_le in Lj.
     destruct (pinv_crash s (reset_volatile (set_segs s (drop_tail (segs s) j))) hi j HP Lj) as [HP' Hnw]; try reflexivity.
     exists hi. split; [exact HP'|].
-    unfold running. proj. repeat split; reflexivity.
+    unfold running, RInv. proj. repeat split; try reflexivity; try discriminate.
+    + destruct (restoring_ok c s hi HV i H) as [A B]. rewrite Hnw. exact A.
+    + destruct (restoring_ok c s hi HV i H) as [A B]. exact B.
   - (* a prefix of the records of the save in flight reached the file *)
     destruct (rdp s) as [| | r pb apd | |] eqn:Er; try discriminate. destruct apd; try discriminate.
     destruct j; [|discriminate].
@@ -40,7 +50,7 @@ Proof.
     destruct (Nat.leb ex (length (ready_records r))) eqn:Le; [|discriminate]. injection Im as <-.
     assert (Hrun : running s = true).
     { destruct (running s) eqn:Q; auto. destruct HV as [_ [Hr _]]. congruence. }
-    rewrite Hrun in HV. destruct HV as [v_rd _ _ _ v_ws _ _ _ _ _ _ _ _ _ _ _].
+    rewrite Hrun in HV. destruct HV as [v_rd _ _ _ v_ws _ _ _ _ _ _ _ _ _ v_pgw _].
     unfold rd_inv in v_rd. rewrite Er in v_rd. destruct v_rd as [[F1 F2] [[Uhi [Uw [Uh Uc]]] _]].
     destruct (save_entries_range s r hi Uhi F1) as [Erange Lrange].
     rewrite ready_records_eq, Erange.
@@ -59,22 +69,27 @@ Proof.
         + destruct (r_hs r); discriminate.
         + destruct (r_hs r) eqn:Qh; [apply Uh; reflexivity|]. destruct (ex - N.to_nat (rlast s r - hi))%nat; discriminate. }
     exists b'. split; [exact HP'|].
-    unfold running. proj. repeat split; reflexivity.
+    unfold running, RInv. proj. destruct v_pgw as [_ Prs]. repeat split; try reflexivity; try discriminate; exfalso; congruence.
 Qed.
 
 (* ---------- the restart ---------- *)
 
 Ltac rinv HV U Hrd Hap Hsn Hck Hpw Hps Hq Hrc :=
-  let Hws := fresh "Hws" in destruct HV as [U [Hrd [Hap [Hsn [Hck [Hpw [Hps [Hq [Hws Hrc]]]]]]]]].
+  let Hws := fresh "Hws" in let Hrs := fresh "Hrs" in
+  destruct HV as [U [Hrd [Hap [Hsn [Hck [Hpw [Hps [Hq [Hws [Hrs Hrc]]]]]]]]]].
 
 Lemma not_running_rc : forall s, running s = false -> rc s <> RcRunning.
 Proof. intros s H. unfold running in H. destruct (rc s); congruence. Qed.
 
+Ltac rinv_open HV R :=
+  unfold running in HV; rewrite R in HV; cbv iota in HV; unfold RInv in HV; rewrite R in HV.
+
 Lemma step_rc_chosen : forall c s s' i, fixed c -> Inv c s -> step c s (EvRcChosen i) = Ok s' -> Inv c s'.
 Proof.
-  intros c s s' i [_ Hfx] [hi [HP HV]] H. unfold step in H. rewrite Hfx in H.
+  intros c s s' i [_ [Hfx _]] [hi [HP HV]] H. unfold step in H. rewrite Hfx in H.
   destruct (rc s) eqn:R; try discriminate.
-  unfold running in HV. rewrite R in HV. cbv iota in HV. unfold RInv in HV. rewrite R in HV. rinv HV U Hrd Hap Hsn Hck Hpw Hps Hq Hrc. destruct Hrc as [Hlat Heng].
+  destruct (restore_pending s) eqn:Rp; [discriminate|].
+  rinv_open HV R. rinv HV U Hrd Hap Hsn Hck Hpw Hps Hq Hrc. destruct Hrc as [Hlat Heng].
   rewrite (pinv_choose _ _ HP U) in H.
   destruct (0 <? newest (segs s)) eqn:Q; [|discriminate].
   destruct (i =? newest (segs s)) eqn:Qi; [|discriminate]. injection H as <-.
@@ -85,18 +100,18 @@ Proof.
     + apply remove_orphans_NoDup. exact (p_nodup _ _ HP).
     + intros f Hf. apply remove_orphans_In in Hf. destruct Hf as [Hf _]. exact (p_files_le _ _ HP f Hf).
     + exact (p_ckpts _ _ HP).
-  - unfold running, RInv. proj. repeat split; auto; try lia.
+  - unfold running, RInv. proj. repeat split; auto; try lia; try discriminate.
     + intros f Hf. apply remove_orphans_In in Hf. destruct Hf as [_ [Hv|[c0 [Ec Hle]]]].
       * apply valid_markers_sub in Hv. apply newest_ge. exact Hv.
       * injection Ec as <-. exact Hle.
-    + intros l Hl. rewrite Heng in Hl. discriminate.
 Qed.
 
 Lemma step_rc_none : forall c s s', fixed c -> Inv c s -> step c s EvRcNone = Ok s' -> Inv c s'.
 Proof.
-  intros c s s' [_ Hfx] [hi [HP HV]] H. unfold step in H. rewrite Hfx in H.
+  intros c s s' [_ [Hfx _]] [hi [HP HV]] H. unfold step in H. rewrite Hfx in H.
   destruct (rc s) eqn:R; try discriminate.
-  unfold running in HV. rewrite R in HV. cbv iota in HV. unfold RInv in HV. rewrite R in HV. rinv HV U Hrd Hap Hsn Hck Hpw Hps Hq Hrc. destruct Hrc as [Hlat Heng].
+  destruct (restore_pending s) eqn:Rp; [discriminate|].
+  rinv_open HV R. rinv HV U Hrd Hap Hsn Hck Hpw Hps Hq Hrc. destruct Hrc as [Hlat Heng].
   rewrite (pinv_choose _ _ HP U) in H.
   destruct (0 <? newest (segs s)) eqn:Q; [discriminate|]. injection H as <-.
   assert (Hn0 : newest (segs s) = 0) by lia.
@@ -113,28 +128,58 @@ Proof.
     + constructor.
     + intros f [].
     + exact (p_ckpts _ _ HP).
-  - unfold running, RInv. proj. rewrite Hempty. repeat split; auto.
+  - unfold running, RInv. proj. rewrite Hempty. repeat split; auto; discriminate.
 Qed.
 
+(* restoreFromPath: marker written, data directory emptied (the restore of the chosen snapshot, or the one a previous
+   life did not finish) *)
 Lemma step_rs_removed : forall c s s' i, Inv c s -> step c s (EvRsRemoved i) = Ok s' -> Inv c s'.
 Proof.
   intros c s s' i [hi [HP HV]] H. unfold step in H.
   destruct (rc s) eqn:R; try discriminate.
-  destruct (negb (i =? i0)); [discriminate|]. destruct (lookup i0 (ckpts s)); [|discriminate]. injection H as <-.
-  unfold running in HV. rewrite R in HV. cbv iota in HV. unfold RInv in HV. rewrite R in HV. rinv HV U Hrd Hap Hsn Hck Hpw Hps Hq Hrc.
-  exists hi. split; [pframe s|].
-  unfold running, RInv. proj. rewrite R. destruct Hrc as [A [B [C [D E]]]]. repeat split; auto. intros l9 Hl. discriminate.
+  - (* at OpenRockDB *)
+    destruct (restoring s) as [j|] eqn:Rs; [|discriminate].
+    destruct (negb (i =? j)); [discriminate|]. destruct (lookup j (ckpts s)); [|discriminate]. injection H as <-.
+    rinv_open HV R. rinv HV U Hrd Hap Hsn Hck Hpw Hps Hq Hrc.
+    exists hi. split; [pframe s|].
+    unfold running, RInv. proj. rewrite R. destruct Hrc as [A B]. repeat split; auto; try discriminate; apply Hrs; assumption.
+  - destruct (negb (i =? i0)); [discriminate|]. destruct (lookup i0 (ckpts s)); [|discriminate]. injection H as <-.
+    rinv_open HV R. rinv HV U Hrd Hap Hsn Hck Hpw Hps Hq Hrc.
+    exists hi. split; [pframe s|].
+    unfold running, RInv. proj. rewrite R. destruct Hrc as [A [B [C [D E]]]]. repeat split; auto.
+    all: try (match goal with Hk : Some _ = Some _ |- _ => injection Hk as <- end; assumption).
+    all: try (intros l9 Hl; discriminate).
 Qed.
 
 Lemma step_rs_copied : forall c s s' i, Inv c s -> step c s (EvRsCopied i) = Ok s' -> Inv c s'.
 Proof.
   intros c s s' i [hi [HP HV]] H. unfold step in H.
   destruct (rc s) eqn:R; try discriminate.
-  destruct (negb (i =? i0)); [discriminate|]. destruct (lookup i0 (ckpts s)) as [l0|] eqn:L; [|discriminate]. injection H as <-.
-  unfold running in HV. rewrite R in HV. cbv iota in HV. unfold RInv in HV. rewrite R in HV. rinv HV U Hrd Hap Hsn Hck Hpw Hps Hq Hrc.
+  - destruct (restoring s) as [j|] eqn:Rs; [|discriminate].
+    destruct (negb (i =? j)); [discriminate|]. destruct (lookup j (ckpts s)) as [l0|] eqn:L; [|discriminate]. injection H as <-.
+    rinv_open HV R. rinv HV U Hrd Hap Hsn Hck Hpw Hps Hq Hrc.
+    exists hi. split; [pframe s|].
+    unfold running, RInv. proj. rewrite R. destruct Hrc as [A B]. destruct (Hrs j Rs) as [Hj1 Hj2].
+    repeat split; auto; try (apply Hrs; assumption).
+    (* the engine holds the state of the newest snapshot again (startRaft will clean or restore it anyway) *)
+    intros l9 Hl9. injection Hl9 as <-. rewrite <- Hj1. eapply p_ckpts; eauto.
+  - destruct (negb (i =? i0)); [discriminate|]. destruct (lookup i0 (ckpts s)) as [l0|] eqn:L; [|discriminate]. injection H as <-.
+    rinv_open HV R. rinv HV U Hrd Hap Hsn Hck Hpw Hps Hq Hrc.
+    exists hi. split; [pframe s|].
+    unfold running, RInv. proj. rewrite R. destruct Hrc as [A [B [C [D E]]]]. repeat split; auto.
+    all: try solve [intros l9 Hl9; injection Hl9 as <-; eapply p_ckpts; eauto].
+    all: try solve [intros; discriminate].
+    all: apply Hrs; assumption.
+Qed.
+
+Lemma step_rs_marker_gone : forall c s s', Inv c s -> step c s EvRsMarkerGone = Ok s' -> Inv c s'.
+Proof.
+  intros c s s' [hi [HP HV]] H. unfold step in H.
+  destruct (restoring s) as [j|] eqn:Rs; [|discriminate]. destruct (engine s) eqn:En; [|discriminate].
+  destruct (running s) eqn:Rn; [discriminate|]. injection H as <-.
   exists hi. split; [pframe s|].
-  unfold running, RInv. proj. rewrite R. destruct Hrc as [A [B [C [D E]]]]. repeat split; auto.
-  intros l Hl. injection Hl as <-. eapply p_ckpts; eauto.
+  unfold running in *. proj. destruct (rc s) eqn:R; try discriminate; unfold RInv in *; proj; rewrite R in *;
+    decompose [and] HV; repeat split; auto; try discriminate.
 Qed.
 
 Lemma step_rc_restored : forall c s s' i, Inv c s -> step c s (EvRcRestored i) = Ok s' -> Inv c s'.
@@ -143,7 +188,7 @@ Proof.
   destruct (rc s) eqn:R; try discriminate.
   destruct (engine s) as [l0|] eqn:En; [|discriminate].
   destruct (negb (i =? i0)); [discriminate|]. injection H as <-.
-  unfold running in HV. rewrite R in HV. cbv iota in HV. unfold RInv in HV. rewrite R in HV. rinv HV U Hrd Hap Hsn Hck Hpw Hps Hq Hrc.
+  rinv_open HV R. rinv HV U Hrd Hap Hsn Hck Hpw Hps Hq Hrc.
   destruct Hrc as [A [B [C [D E]]]].
   assert (Hv : forall j, newest (segs s) <= j -> ~ In j (purge_victims (eff_keep_ckpt c) (latest s) (map fst (ckpts s)))).
   { intros j Hj Hin. apply purge_victims_lt in Hin. lia. }
@@ -151,13 +196,13 @@ Proof.
   - apply (pinv_files s); try reflexivity; try exact HP; proj; try (destruct HP; assumption).
     + intros Hp. destruct (p_file _ _ HP Hp) as [X Y]. split; [exact X|]. rewrite lookup_purge_ckpts by (apply Hv; lia). exact Y.
     + intros j l1 Hl. apply lookup_purge_ckpts_some in Hl. eapply p_ckpts; eauto.
-  - unfold running, RInv. proj. repeat split; auto. rewrite En. f_equal. apply E. exact En.
+  - unfold running, RInv. proj. repeat split; auto; try discriminate. rewrite En. f_equal. apply E. exact En.
 Qed.
 
 (* a node on a fresh WAL (first start, or a WAL found without any raft state) *)
 Lemma inv_fresh : forall c cks pr,
   (forall i l, lookup i cks = Some l -> l = range 0 i) ->
-  Inv c (mkState [mkSeg 0 [RSnap 0]] 0 0 [] cks (Some []) RcRunning 0 false 0 0 0 RdIdle 0 0 0 0 [] ApIdle 0 0 [] CkIdle false None 0 pr).
+  Inv c (mkState [mkSeg 0 [RSnap 0]] 0 0 [] cks (Some []) [] None RcRunning 0 false 0 0 0 RdIdle 0 0 0 0 [] ApIdle 0 0 [] CkIdle false None 0 pr).
 Proof.
   intros c cks pr Hck. exists 0. split.
   - constructor; proj.
@@ -186,6 +231,7 @@ Proof.
     + intros i p Hp. discriminate.
     + intros f [].
     + intros f Hf. discriminate.
+    + split; [intros; discriminate | reflexivity].
 Qed.
 
 Lemma inv_init : forall c, Inv c init_state.
@@ -200,7 +246,8 @@ Proof.
   destruct (rc s) eqn:R; try discriminate.
   destruct (read_all (segs s) 0) as [[ents cm]|] eqn:Ra; [|discriminate].
   destruct ents; [|discriminate].
-  destruct (existsb _ (all_recs (segs s))) eqn:Hs; [discriminate|]. injection H as <-.
+  destruct (existsb _ (all_recs (segs s))) eqn:Hs; [discriminate|].
+  destruct (restore_pending s) eqn:Rp; [discriminate|]. injection H as <-.
   unfold running in HV. rewrite R in HV. cbv iota in HV. unfold RInv in HV. rewrite R in HV.
   rinv HV U Hrd Hap Hsn Hck Hpw Hps Hq Hrc.
   pose proof (has_state_false _ Hs) as Hlc.
@@ -225,7 +272,7 @@ Proof. intros. unfold last_of. apply last_range. exact H. Qed.
 (* the end of the restart: the WAL is read back from the chosen snapshot on, the loops start *)
 Lemma replay_inv : forall c s hi i n lastp commit s',
   PInv s hi -> unflushed s = 0%nat -> rdp s = RdIdle -> app s = ApIdle -> sns s = [] -> ckp s = CkIdle -> pg_wal s = false ->
-  pg_snap s = None -> queue s = [] -> wstate s = false ->
+  pg_snap s = None -> queue s = [] -> wstate s = false -> restoring s = None ->
   i = newest (segs s) -> latest s <= i -> (forall f, In f (snapfiles s) -> f <= i) -> engine s = Some (range 0 i) ->
   match read_all (segs s) i, covering (segs s) i with
   | Ok (ents, cm), Some p =>
@@ -237,7 +284,7 @@ Lemma replay_inv : forall c s hi i n lastp commit s',
   end = Ok s' ->
   Inv c s'.
 Proof.
-  intros c s hi i n lastp commit s' HP U Hrd Hap Hsn Hck Hpw Hps Hq Hws Hi Hlat Hfiles Heng H.
+  intros c s hi i n lastp commit s' HP U Hrd Hap Hsn Hck Hpw Hps Hq Hws Hrst Hi Hlat Hfiles Heng H.
   pose proof (p_new_in _ _ HP) as Hin. rewrite <- Hi in Hin.
   pose proof (p_first _ _ HP) as Hf. rewrite <- Hi in Hf. unfold hd_first in Hf.
   pose proof (pinv_newest_le_hi _ _ HP) as Hle. rewrite <- Hi in Hle.
@@ -269,7 +316,7 @@ Proof.
   all: try solve [intros k pc Hk; rewrite Hsn in Hk; discriminate].
   all: try solve [intros f Hfin Hn; specialize (Hfiles f Hfin); lia].
   all: try solve [intros f Hf0; rewrite Hps in Hf0; discriminate].
-  all: try solve [intros Hw; rewrite Hpw in Hw; discriminate].
+  all: try solve [split; [intros Hw; rewrite Hpw in Hw; discriminate | exact Hrst]].
   all: try solve [rewrite Hck; exact I].
 Qed.
 
@@ -280,10 +327,10 @@ Proof.
     unfold running in HV; rewrite R in HV; cbv iota in HV; unfold RInv in HV; rewrite R in HV;
     rinv HV U Hrd Hap Hsn Hck Hpw Hps Hq Hrc.
   - (* restored from the chosen snapshot *)
-    destruct Hrc as [A [B [C [D E]]]].
+    destruct Hrc as [A [B [C [D [E F]]]]].
     eapply (replay_inv c s hi i n lastp commit s'); eauto. lia.
   - (* no snapshot: from the beginning of the log *)
-    destruct Hrc as [A [B [C D]]].
+    destruct Hrc as [A [B [C [D F]]]].
     eapply (replay_inv c s hi 0 n lastp commit s'); eauto; try lia.
     + intros f Hf. rewrite C in Hf. destruct Hf.
 Qed.
